@@ -71,10 +71,9 @@ theorem C06_chunk_over_limit (s : S) (arg a0 : Bytes) (more : List Bytes) (size 
   ⟨handleBdat_over_limit s arg a0 more size hf hsz hm henv hlast hover,
    handleBdat_over_limit_effect s arg a0 more size hf hsz hm henv hlast hover⟩
 
-/-- **C06_declared_size_refused.**  A MAIL parameter `SIZE=n` with `n` above the limit makes the parameter switch refuse
-    with 552, whatever follows — `handleMail` then answers and returns without calling the backend. -/
+/-- **C06_declared_size_refused.**  A MAIL parameter `SIZE=n` with `n` above the limit (any `n` an int64 can hold: 63 bits since 548a344; RFC 1870 allows 20 digits) makes the parameter switch refuse with 552, whatever follows — `handleMail` then answers and returns without calling the backend. -/
 theorem C06_declared_size_refused (cfg : Cfg) (rest : List (Bytes × Bytes)) (o : MailOpts) (bm : Bool) (n : Nat)
-    (h : n < 2 ^ 32) (hm : cfg.maxMsg > 0 ∧ n > cfg.maxMsg) :
+    (h : n < 2 ^ 63) (hm : cfg.maxMsg > 0 ∧ n > cfg.maxMsg) :
     Server.mailParams cfg (("SIZE".b, natToDec n) :: rest) o bm = .refuse 552 ⟨5, 3, 4⟩ "Max message size exceeded" :=
   mailParams_size_over cfg rest o bm n h hm
 
